@@ -39,6 +39,12 @@ def strip(src):
 
 
 def functions(path):
+    """yield (name, hash of the normalised token text) for every fn in the non-test part of a file"""
+    for name, toks in functions_text(path):
+        yield (name, hashlib.sha1(toks.encode()).hexdigest()[:16])
+
+
+def functions_text(path):
     """yield (name, normalised token text) for every fn in the non-test part of a file"""
     src = strip(open(os.path.join(REPO, path)).read())
     cut = re.search(r"#\s*\[\s*cfg\s*\(\s*test\s*\)\s*\]", src)
@@ -60,7 +66,7 @@ def functions(path):
         name = m.group(1)
         k = seen.get(name, 0)
         seen[name] = k + 1
-        yield (f"{os.path.basename(path)}::{name}" + (f"#{k}" if k else ""), hashlib.sha1(toks.encode()).hexdigest()[:16])
+        yield (f"{os.path.basename(path)}::{name}" + (f"#{k}" if k else ""), toks)
 
 
 def current():
@@ -86,6 +92,41 @@ def default_callers(name):
     if stem == "geonum" and fn in ("dot", "wedge", "scale", "scalar", "signed_at", "inv", "cos", "sin", "project", "rotate", "negate", "dual"):
         pats += [r"geonum\..*", r"coll\..*", r"affine\..*", r"em\..*"]
     return pats
+
+
+NAMED = {"EPSILON": [1e-10, 2.220446049250313e-16], "PI": [3.141592653589793], "FRAC_PI_2": [1.5707963267948966],
+         "FRAC_PI_4": [0.7853981633974483], "TAU": [6.283185307179586], "MIN_POSITIVE": [2.2250738585072014e-308],
+         "MAX": [1.7976931348623157e308, 2147483647.0, 4294967295.0], "i32": [2147483647.0, 2147483648.0], "u32": [4294967295.0, 4294967296.0],
+         "i16": [32767.0, 32768.0], "u16": [65535.0, 65536.0], "u8": [255.0, 256.0], "f32": [16777216.0, 1.1920929e-07, 3.4028235e38]}
+
+
+def literal_dict(changed):
+    """numeric literals and named float constants (and integer-width names: casts) occurring in the current text of the changed
+    functions — the generator's change-directed dictionary.  Empty when nothing changed."""
+    if not changed:
+        return []
+    vals = set()
+    texts = {}
+    for path in FILES:
+        try:
+            for name, toks in functions_text(path):
+                texts[name] = toks
+        except Exception:
+            pass
+    for n in changed:
+        toks = texts.get(n)
+        if toks is None:
+            continue
+        for t in toks.split():
+            if re.fullmatch(r"\d[\d_]*(\.[\d_]*)?([eE][+-]?\d+)?", t):
+                try:
+                    vals.add(float(t.replace("_", "")))
+                except ValueError:
+                    pass
+            elif t in NAMED:
+                vals.update(NAMED[t])
+    vals.discard(0.0)
+    return sorted(vals)[:64]
 
 
 def changed_ops(all_ops):
